@@ -110,8 +110,13 @@ func main() {
 	n := 0
 	for _, kind := range []string{index.ItemKindSegment, index.ItemKindSnapshot} {
 		for _, size := range sizes {
-			for _, pre := range []string{"absent", "shorter", "equal", "longer"} {
+			for _, pre := range []string{"absent", "shorter", "equal", "longer", "held"} {
 				for _, fl := range fails {
+					// held: the earlier file of the item is in use (a Load of it is open): Persist is refused and
+					// must not have touched it
+					if pre == "held" && fl.name != "none" && fl.name != "errmid" && fl.name != "cancel0" {
+						continue
+					}
 					n++
 					id := uint64(n)
 					path := filepath.Join(*dir, fmt.Sprintf("%012x%s", id, kind))
@@ -123,10 +128,19 @@ func main() {
 						preLen = size
 					case "longer":
 						preLen = size + 1 + rng.Intn(2*buf)
+					case "held":
+						preLen = []int{size + 1 + rng.Intn(2*buf), size/2 + 1, size + 1}[rng.Intn(3)]
 					}
 					if preLen >= 0 {
 						if err := os.WriteFile(path, bytes.Repeat([]byte{0xEE}, preLen), 0o600); err != nil {
 							panic(err)
+						}
+					}
+					var holder io.Closer
+					if pre == "held" {
+						var lerr error
+						if _, holder, lerr = d.Load(kind, id); lerr != nil {
+							panic(lerr)
 						}
 					}
 					closeCh := make(chan struct{})
@@ -151,6 +165,9 @@ func main() {
 						}
 					}
 					mark(*dir, fmt.Sprintf("after.%v.%d.%v", exists, len(b), equal))
+					if holder != nil {
+						_ = holder.Close()
+					}
 					_ = os.Remove(path)
 				}
 			}
